@@ -260,6 +260,20 @@ pub fn wrong_types(_r: &dyn Runner, _tier: Tier, st: &St, out: &mut Vec<Edge>) {
     out.push(Edge::TypeReports(0));
 }
 
+/// capacity family (C10)
+pub fn capacity(r: &dyn Runner, tier: Tier, st: &St, lmax: usize, out: &mut Vec<Edge>) {
+    if !r.resizable() { return; }
+    let _ = tier;
+    for api in [Api::Erased, Api::Typed] {
+        for n in 0..=(lmax + 2) as u8 {
+            for c in [CapCall::Reserve, CapCall::ReserveExact, CapCall::ShrinkTo] { out.push(Edge::Cap(api, c, n)); }
+        }
+        out.push(Edge::Cap(api, CapCall::ShrinkToFit, 0));
+    }
+    for n in 0..=(lmax + 2) as u8 { out.push(Edge::Cap(Api::Erased, CapCall::WithCapacity, n)); }
+    if st.len <= 2 && st.spare != Spare::Scrub { out.push(Edge::Cap(Api::Typed, CapCall::PushRun, 0)); }
+}
+
 fn movers(out: &mut Vec<Edge>) {
     out.push(Edge::Push(Api::Typed, Src::W));
     out.push(Edge::Pop(Api::Typed, Sink::Downcast));
@@ -275,6 +289,8 @@ pub fn edges_for(prop: Prop, tier: Tier, r: &dyn Runner, st: &St) -> Vec<Edge> {
         Prop::C09 => { lazies(r, tier, st, &mut v); movers(&mut v); }
         Prop::C07 => { forgets(r, tier, st, &mut v); movers(&mut v); }
         Prop::C13 => { handles(r, tier, st, &mut v); movers(&mut v); }
+        Prop::C18 => { capacity(r, tier, st, bounds(prop, tier).lmax, &mut v); elementwise(r, tier, st, &mut v); ranges(r, tier, st, true, &mut v); clones(r, tier, st, &mut v); }
+        Prop::C10 => { capacity(r, tier, st, bounds(prop, tier).lmax, &mut v); elementwise(r, tier, st, &mut v); }
         Prop::C04 => { wrong_types(r, tier, st, &mut v); movers(&mut v); }
         Prop::C03 | Prop::C05 => { elementwise(r, tier, st, &mut v); ranges(r, tier, st, true, &mut v); clones(r, tier, st, &mut v); lazies(r, tier, st, &mut v); }
         _ => {}
